@@ -23,7 +23,14 @@ HistOf(ops) == [i \in DOMAIN ops |-> [inv |-> ops[i].inv, ret |-> ops[i].ret,
 LTInit == l = 1
 LTNext ==
   /\ l <= Len(TraceLog) /\ l' = l + 1
-  /\ IF Ev.ev # "lin" THEN TRUE
+  /\ IF Ev.ev = "linget"
+     \* Get while an installed entry is replaced over and over: installed before the first Get started and never
+     \* deleted (a replace swaps the payload in one step), so every Get returns it - exactly once (C07, C11)
+     THEN (IF Ev.failed # "" THEN PrintT(<<"MISMATCH", l, "linget", {"lingetSetup"}>>)
+           ELSE IF Ev.missing > 0 THEN PrintT(<<"MISMATCH", l, "linget", {"getMissedInstalledEntry"}>>)
+           ELSE IF Ev.dup > 0 THEN PrintT(<<"MISMATCH", l, "linget", {"getDuplicateDuringReplace"}>>)
+           ELSE TRUE)
+     ELSE IF Ev.ev # "lin" THEN TRUE
      ELSE IF ~Ev.completed THEN PrintT(<<"MISMATCH", l, "lin", {"linHang"}>>)
      ELSE IF LinearizableTo(RibOf(Ev.initial), HistOf(Ev.ops), RibOf(Ev.final)) THEN TRUE
      ELSE PrintT(<<"MISMATCH", l, "lin", {"notLinearizable"}>>)
